@@ -24,7 +24,8 @@ PROGS = {
     "Qb": ((), (3, 1, 3)),
     "Qc": ((), (4, 1)),
     "Qd": ((), {"w1": (2, 1), "w2": (2,)}),
-    "Qe": ((), (2, -3, 2, 1)),                  # a queued file is not counted against the bound
+    "Qe": ((), (2, -3, 2, 1)),
+    "Qf": ((), (6, 1)),                         # one write whose unsent rest alone exceeds the bound                  # a queued file is not counted against the bound
 }
 
 
@@ -48,9 +49,9 @@ def configs(focus, tier):
     else:
         for mode in ("LT", "ET", "OS"):
             progs = [("Qa", "W1"), ("Qb", "W1")]
-            progs += [("Qe", "W1")]
+            progs += [("Qe", "W1"), ("Qc", "W1"), ("Qf", "W1")]
             if tier == "thorough":
-                progs += [("Qc", "W1"), ("Qd", "W2")]
+                progs += [("Qd", "W2")]
             for prog, writers in progs:
                 out.append(dict(mode=mode, transport="tcp", sndcap=2, maxwb=3, writers=writers, prog=prog,
                                 maxin=0, rdbuf=2, maxread=2, eager=True))
